@@ -269,17 +269,33 @@ Proof.
   destruct (lookup_user_h w2 (s_name src)) as [uid|] eqn:Eu; [|discriminate].
   destruct w2 as [h2 s2]. unfold lookup_channel_h in Ec. unfold lookup_user_h in Eu. cbn [w_heap w_st] in *.
   pose proof (alookup_snd _ _ _ Ec) as Rc. pose proof (alookup_snd _ _ _ Eu) as Ru.
-  bind_inv H u Hu. bind_inv H c Hc. bind_inv H h3 H3. bind_inv H h4 H4. bind_inv H u4 Hu4.
-  pose proof (channel_add_user_Wf _ _ _ _ _ _ W2 Rc H3) as W3.
+  bind_inv H u0 Hu0.
+  match type of H with context [hset h2 uid (CUser ?x)] => set (u := x) in * end.
+  assert (W2' : HeapWf (mkWorld (hset h2 uid (CUser u)) s2)).
+  { unfold u. destruct (_ && _).
+    - apply (user_field_Wf h2 s2 uid u0 (fun u => hu_set_ident_host u (s_ident src) (s_host src))); auto. kp.
+    - apply (user_field_Wf h2 s2 uid u0 (fun u => u)); auto. kp. }
+  set (h2' := hset h2 uid (CUser u)) in *.
+  bind_inv H c Hc. bind_inv H h3 H3. bind_inv H h4 H4. bind_inv H u4 Hu4.
+  pose proof (channel_add_user_Wf _ _ _ _ _ _ W2' Rc H3) as W3.
   pose proof (user_add_channel_Wf _ _ _ _ _ _ W3 Ru H4) as W4.
   match type of H with context [hset h4 uid (CUser ?x)] => set (u5 := x) in * end.
   assert (W5 : HeapWf (mkWorld (hset h4 uid (CUser u5)) s2)).
-  { unfold u5. destruct rest as [|acct [|name r]].
+  { unfold u5. destruct (e_account_tag e) as [tag|]; destruct rest as [|acct [|name r]].
+    - apply (user_field_Wf h4 s2 uid u4 (fun u => hu_set_account u tag)); auto. kp.
+    - destruct (streqb acct [42%N]).
+      + apply (user_field_Wf h4 s2 uid u4 (fun u => hu_set_account (hu_set_account u tag) [])); auto. kp.
+      + apply (user_field_Wf h4 s2 uid u4 (fun u => hu_set_account (hu_set_account u tag) acct)); auto. kp.
+    - destruct (streqb acct [42%N]).
+      + apply (user_field_Wf h4 s2 uid u4 (fun u => hu_set_name (hu_set_account (hu_set_account u tag) []) name)); auto. kp.
+      + apply (user_field_Wf h4 s2 uid u4 (fun u => hu_set_name (hu_set_account (hu_set_account u tag) acct) name)); auto. kp.
     - apply (user_field_Wf h4 s2 uid u4 (fun u => u)); auto. kp.
-    - destruct (streqb acct [42%N]); [apply (user_field_Wf h4 s2 uid u4 (fun u => u)); auto; kp|].
-      apply (user_field_Wf h4 s2 uid u4 (fun u => hu_set_account u acct)); auto. kp.
-    - destruct (streqb acct [42%N]); [apply (user_field_Wf h4 s2 uid u4 (fun u => hu_set_name u name)); auto; kp|].
-      apply (user_field_Wf h4 s2 uid u4 (fun u => hu_set_name (hu_set_account u acct) name)); auto. kp. }
+    - destruct (streqb acct [42%N]).
+      + apply (user_field_Wf h4 s2 uid u4 (fun u => hu_set_account u [])); auto. kp.
+      + apply (user_field_Wf h4 s2 uid u4 (fun u => hu_set_account u acct)); auto. kp.
+    - destruct (streqb acct [42%N]).
+      + apply (user_field_Wf h4 s2 uid u4 (fun u => hu_set_name (hu_set_account u []) name)); auto. kp.
+      + apply (user_field_Wf h4 s2 uid u4 (fun u => hu_set_name (hu_set_account u acct) name)); auto. kp. }
   destruct (streqb _ _); injection H as <-; [|exact W5].
   apply (HeapWf_same_maps _ s2); [reflexivity|reflexivity|exact W5].
 Qed.
